@@ -44,15 +44,20 @@ def fams_for(prop, quick):
             f += [10001, 10003, 10004, 10006, 10011, 10013, 10022, 10111, 10112, 10116, 10121, 10131, 10140]
             # 1200b parts at both extremes of the type, 12010 the same for lengths, 121xx inherited default under a level adding one restriction kind
             f += [12003, 12004, 12010, 12111, 12102, 12105]
+            # 1202b / 12030 / 1204f representation limits as range / length bounds; 102xx histories of one typedef in one compilation
+            f += [12021, 12023, 12024, 12030, 12041, 10201, 10202, 10203, 10205]
             rand += [11001]
         else:
             f += [10000 + i for i in (1, 2, 3, 4, 5, 6, 11, 12, 13, 21, 22)] + [10110 + i for i in range(1, 9)] + [10120 + i for i in range(1, 7)] + [10131, 10132, 10133, 10140]
             f += [12001, 12002, 12003, 12004, 12010, 12101, 12102, 12103, 12104, 12105]
+            f += [12020 + i for i in range(1, 9)] + [12030] + [12040 + i for i in range(1, 7)] + [10200 + i for i in range(1, 8)]
             rand += list(range(11001, 11007))
     else:
         f = [8000 + i for i in range(1, 9)] + [8010 + i for i in range(1, 7)] + [8020, 8021, 8022]
         rand = [9101, 9102, 9103, 9104, 9105, 9106] if quick else list(range(9101, 9125))
         laws = [20002, 20003, 20004, 20005]
+        # 1300x types with a large value set (also validated concurrently on first use); 12030 length limits
+        f += [13001, 13002, 13003, 13004, 12030]
         if quick:
             f += [10003, 10006, 10012, 10111, 10112, 10113, 10114, 10116, 10118, 10121, 10124, 10131, 10140]
             rand += [11101]
@@ -274,6 +279,7 @@ def run(ctx):
     sites = SITES[prop]
     ctx.build(["ty"])
     maxd = 3
+    conc_fams = [f for f in fams if f // 1000 == 13]
     # 1. design laws
     mcf = laws + ([f for f in fams if f // 1000 in (1, 3, 5, 6, 7, 8, 12) and f != 7003][::4] if quick else [f for f in fams if f // 1000 not in (10, 11)])
     def design_laws():
@@ -293,6 +299,8 @@ def run(ctx):
     groups = [rand[i::ngroups] for i in range(ngroups)]
     with cf.ThreadPoolExecutor(max_workers=ngroups + 1) as ex:
         mc = ex.submit(design_laws)       # the design laws are checked while the vectors are generated
+        # the harness once more under the race detector, for the concurrent first-use stage
+        racebuild = ex.submit(ctx.build, ["ty"], True) if conc_fams else None
         time.sleep(0.3)
         futs = []
         for gi, group in enumerate(groups):
@@ -304,6 +312,8 @@ def run(ctx):
         for f in futs:
             vfiles += f.result()
         mc.result()
+        if racebuild:
+            racebuild.result()
     if not vfiles or any(not os.path.exists(f) for f in vfiles):
         raise Infra("generator produced no vectors")
     obsf = ctx.path("obs.ndjson")
@@ -312,6 +322,31 @@ def run(ctx):
     for f in vfiles:
         rawv += read_ndjson(f)
     rawo = read_ndjson(obsf)
+    # concurrent stage: types with a large value set are compiled afresh and validated by 16 goroutines released
+    # together, 6 times, in a binary built with the race detector; every verdict must be the sequential oracle's
+    # (the conjunction and the disjunction of the verdicts come back as two passes), and no race may be reported
+    nconc = 0
+    if conc_fams:
+        cfiles = [f for f in vfiles if int(re.search(r"vec_(\d+)", f).group(1)) in conc_fams]
+        cobs = ctx.path("conc.ndjson")
+        r = ctx.run_bin("ty-race", ["conc", "-out", cobs] + cfiles, timeout=600, check=False)
+        if "DATA RACE" in r.stderr:
+            m = re.search(r"WARNING: DATA RACE(.*?)={10,}", r.stderr, re.S)
+            where = re.findall(r"\n  ([\w./*()]+)\(\)\n", m.group(1) if m else r.stderr)
+            ctx.disagree(dict(site="concurrency", what="data-race", where=next((w for w in where if "yang-parser" in w), "?")),
+                         "data race while one freshly compiled type is validated from several goroutines",
+                         dict(kind="race", report=(m.group(0) if m else r.stderr)[:3000], how="ty-race conc <vec_1300x.ndjson> (bin/check C16)"))
+        elif r.returncode != 0:
+            raise Infra("ty-race conc failed rc=%d:\n%s" % (r.returncode, r.stderr[-3000:]))
+        for f in cfiles:
+            rawv += read_ndjson(f)
+        co = read_ndjson(cobs) if os.path.exists(cobs) else []
+        nconc = len(co)
+        if len(co) != sum(1 for f in cfiles for _ in open(f)):
+            if "DATA RACE" not in r.stderr:
+                raise Infra("concurrent stage returned %d observations" % len(co))
+            rawv = rawv[:len(rawo) + len(co)]
+        rawo += co
     if len(rawv) != len(rawo):
         raise Infra("harness returned %d observations for %d vectors" % (len(rawo), len(rawv)))
     # a vector is one chain or a group of chains compiled together (sibling leaves); flatten to one entry per leaf
@@ -392,7 +427,7 @@ def run(ctx):
         evaluations=judged, distinct_nontrivial=len(shapes),
         rule="evaluations = judged facts (compile verdicts, defaults, probe verdicts); distinct = chain shapes after erasing numbers",
         samples=samples, families=fams + rand, chains=len(vecs), probes=nprobes, unjudged=unjudged,
-        random_chains=nr, groups_of_sibling_leaves=nsib, trace_events=len(events), trace_failures=len(fails), exhaustive=True,
+        random_chains=nr, groups_of_sibling_leaves=nsib, concurrent_first_use_types=nconc, trace_events=len(events), trace_failures=len(fails), exhaustive=True,
         explanation="TLC checked the design laws on every chain of the listed families, generated one vector per chain (and per seeded random chain); "
                     "every vector was rendered to YANG, compiled by the real compiler and probed through Type().Validate / Default(); "
                     "the observations of the random chains and of a slice of the others were validated by YangTypesTrace")
